@@ -34,7 +34,9 @@ theorem largeLoop_spec (tw : TwoWay) (needle haystack : Slice) (hn : 0 < needle.
     (hpre : PreOK strat pre) (hinv : Inv pos) :
     ∃ r pre' c', Finder.largeLoop tw needle haystack hn s (needle.len - 1) pre pos c
         = .ok (r, pre') c' ∧ PreOK strat pre' ∧ (pre = none → pre' = none) ∧
-      (∀ q, r = some q → Inv q ∧ Occ haystack needle q) ∧ (r = none → Done) := by
+      (∀ q, r = some q → Inv q ∧ Occ haystack needle q) ∧ (r = none → Done) ∧
+      (pre = none → needle.len ≤ 2 * s →
+        c'.steps ≤ c.steps + 3 * (haystack.len - pos) + needle.len + 1) := by
   fun_induction Finder.largeLoop tw needle haystack hn s (needle.len - 1) pre pos generalizing c with
   | case1 pre pos h ih1 ih2 ih3 =>
     obtain ⟨pre1, st, c1, e1, hpre1, hnone1, hst0, hst1⟩ :=
@@ -45,52 +47,72 @@ theorem largeLoop_spec (tw : TwoWay) (needle haystack : Slice) (hn : 0 < needle.
     rw [bind_ok (tick_run 1 c), bind_ok e1]
     cases st with
     | none =>
-      exact ⟨none, pre1, c1, rfl, hpre1, fun hp => (hnone1 hp).1, nofun, fun _ => hst0 rfl hinv⟩
+      exact ⟨none, pre1, c1, rfl, hpre1, fun hp => (hnone1 hp).1, nofun, fun _ => hst0 rfl hinv,
+        fun hp => by cases (hnone1 hp).2.1⟩
     | some dr =>
       obtain ⟨delta, ran⟩ := dr
       obtain ⟨hinv', hfit, _⟩ := hst1 delta ran rfl
       have hinv1 := hinv' hinv
+      have hd0 : pre = none → delta = 0 ∧ c1.steps = c.steps + 1 := fun hp => by
+        obtain ⟨_, h2, h3⟩ := hnone1 hp
+        cases h2; subst h3; exact ⟨rfl, rfl⟩
       simp only []
       rw [get_ok haystack _ (show pos + delta + (needle.len - 1) < haystack.len by omega),
         pure_bind', bind_ok (contains_run _ _ _)]
       cases hin : tw.byteset.has (haystack.getD (pos + delta + (needle.len - 1))) with
       | false =>
         simp only [Bool.not_false, if_true]
-        obtain ⟨r, pre', c', e, h1, h2, h3⟩ := ih1 pre1 delta c1 hstrat1 hpre1
+        obtain ⟨r, pre', c', e, h1, h2, h3, h4, h5⟩ := ih1 pre1 delta c1 hstrat1 hpre1
           (hI.bs _ hinv1 hfit hin)
-        exact ⟨r, pre', c', e, h1, fun hp => h2 (hnone1 hp).1, h3⟩
+        refine ⟨r, pre', c', e, h1, fun hp => h2 (hnone1 hp).1, h3, h4, fun hp hs => ?_⟩
+        have := h5 (hnone1 hp).1 hs
+        obtain ⟨hd, hc⟩ := hd0 hp
+        subst hd
+        omega
       | true =>
         simp only [Bool.not_true, Bool.false_eq_true, if_false]
-        obtain ⟨i, c2, e2, hi1, hi2, hi3, hi4, _, _⟩ :=
+        obtain ⟨i, c2, e2, hi1, hi2, hi3, hi4, hstep2, _⟩ :=
           fwdCmp_spec "find_large_imp" needle haystack (pos + delta) tw.criticalPos c1 hfit
         rw [bind_ok e2]
         by_cases hilt : i < needle.len
         · simp only [hilt, if_true, csub_of_le _ hi1, pure_bind']
-          obtain ⟨r, pre', c', e, h1, h2, h3⟩ := ih2 pre1 delta i (i - tw.criticalPos) c2 hstrat1
-            hpre1 (hI.right _ i hinv1 hfit hi1 hilt hi3 (hi4 hilt))
-          exact ⟨r, pre', c', e, h1, fun hp => h2 (hnone1 hp).1, h3⟩
+          obtain ⟨r, pre', c', e, h1, h2, h3, h4, h5⟩ := ih2 pre1 delta i (i - tw.criticalPos) c2
+            hstrat1 hpre1 (hI.right _ i hinv1 hfit hi1 hilt hi3 (hi4 hilt))
+          refine ⟨r, pre', c', e, h1, fun hp => h2 (hnone1 hp).1, h3, h4, fun hp hs => ?_⟩
+          have := h5 (hnone1 hp).1 hs
+          obtain ⟨hd, hc⟩ := hd0 hp
+          subst hd
+          omega
         · have hieq : i = needle.len := by have := hi2 hcrit; omega
           subst hieq
           simp only [hilt, if_false]
-          obtain ⟨all, c3, e3, ha1, ha2, _, _⟩ :=
+          obtain ⟨all, c3, e3, ha1, ha2, hstep3, _⟩ :=
             largeBackCmp_spec needle haystack (pos + delta) tw.criticalPos c2 hfit hcrit
           rw [bind_ok e3]
           cases all with
           | true =>
             simp only [if_true]
-            refine ⟨some (pos + delta), pre1, c3, rfl, hpre1, fun hp => (hnone1 hp).1, ?_, nofun⟩
-            intro q hq
-            cases hq
-            exact ⟨hinv1, ((ha1 rfl).append hi3).occ hfit⟩
+            refine ⟨some (pos + delta), pre1, c3, rfl, hpre1, fun hp => (hnone1 hp).1, ?_, nofun,
+              fun hp hs => ?_⟩
+            · intro q hq
+              cases hq
+              exact ⟨hinv1, ((ha1 rfl).append hi3).occ hfit⟩
+            · obtain ⟨hd, hc⟩ := hd0 hp
+              omega
           | false =>
             obtain ⟨m, hm1, hm2⟩ := ha2 rfl
             have hs0 : ¬ s = 0 := by omega
             simp only [Bool.false_eq_true, if_false, hs0, dite_false]
-            obtain ⟨r, pre', c', e, h1, h2, h3⟩ := ih3 pre1 delta needle.len hs0 c3 hstrat1 hpre1
-              (hI.left _ m hinv1 hfit hi3 (by omega) hm2)
-            exact ⟨r, pre', c', e, h1, fun hp => h2 (hnone1 hp).1, h3⟩
+            obtain ⟨r, pre', c', e, h1, h2, h3, h4, h5⟩ := ih3 pre1 delta needle.len hs0 c3
+              hstrat1 hpre1 (hI.left _ m hinv1 hfit hi3 (by omega) hm2)
+            refine ⟨r, pre', c', e, h1, fun hp => h2 (hnone1 hp).1, h3, h4, fun hp hs => ?_⟩
+            have := h5 (hnone1 hp).1 hs
+            obtain ⟨hd, hc⟩ := hd0 hp
+            subst hd
+            omega
   | case2 pre pos h =>
-    exact ⟨none, pre, c, rfl, hpre, fun hp => hp, nofun, fun _ => hI.done pos hinv (by omega)⟩
+    exact ⟨none, pre, c, rfl, hpre, fun hp => hp, nofun, fun _ => hI.done pos hinv (by omega),
+      fun _ _ => by omega⟩
 
 theorem smallLoop_spec (tw : TwoWay) (needle haystack : Slice) (hn : 0 < needle.len) (p : Nat)
     (strat : Slice → M (Option Nat)) (Inv : Nat → Prop) (Done : Prop)
@@ -104,7 +126,10 @@ theorem smallLoop_spec (tw : TwoWay) (needle haystack : Slice) (hn : 0 < needle.
     (hshift : shift < needle.len) (hmem : MatchR haystack needle pos 0 shift) :
     ∃ r pre' c', Finder.smallLoop tw needle haystack hn p (needle.len - 1) pre pos shift c
         = .ok (r, pre') c' ∧ PreOK strat pre' ∧ (pre = none → pre' = none) ∧
-      (∀ q, r = some q → Inv q ∧ Occ haystack needle q) ∧ (r = none → Done) := by
+      (∀ q, r = some q → Inv q ∧ Occ haystack needle q) ∧ (r = none → Done) ∧
+      (pre = none → pos ≤ haystack.len →
+        c'.steps + (pos + max tw.criticalPos shift) + 2 * pos ≤
+          c.steps + 3 * haystack.len + 2 * needle.len + 1) := by
   fun_induction Finder.smallLoop tw needle haystack hn p (needle.len - 1) pre pos shift
     generalizing c with
   | case1 pre pos shift h ih1 ih2 ih3 =>
@@ -118,7 +143,8 @@ theorem smallLoop_spec (tw : TwoWay) (needle haystack : Slice) (hn : 0 < needle.
     rw [bind_ok e1]
     cases st with
     | none =>
-      exact ⟨none, pre1, c1, rfl, hpre1, fun hp => (hnone1 hp).1, nofun, fun _ => hst0 rfl hinv⟩
+      exact ⟨none, pre1, c1, rfl, hpre1, fun hp => (hnone1 hp).1, nofun, fun _ => hst0 rfl hinv,
+        fun hp => by cases (hnone1 hp).2.1⟩
     | some dr =>
       obtain ⟨delta, ran⟩ := dr
       obtain ⟨hinv', hfit, hran⟩ := hst1 delta ran rfl
@@ -138,17 +164,26 @@ theorem smallLoop_spec (tw : TwoWay) (needle haystack : Slice) (hn : 0 < needle.
         | false =>
           rw [hran rfl]
           exact hmem
+      -- without a prefilter nothing changed
+      have hd0 : pre = none → delta = 0 ∧ shift1 = shift ∧ c1.steps = c.steps + 1 := fun hp => by
+        obtain ⟨_, h2, h3⟩ := hnone1 hp
+        cases h2; subst h3
+        exact ⟨rfl, by rw [← hsh]; simp, rfl⟩
       rw [get_ok haystack _ (show pos + delta + (needle.len - 1) < haystack.len by omega),
         pure_bind', bind_ok (contains_run _ _ _)]
       cases hin : tw.byteset.has (haystack.getD (pos + delta + (needle.len - 1))) with
       | false =>
         simp only [Bool.not_false, if_true]
-        obtain ⟨r, pre', c', e, h1, h2, h3⟩ := ih1 pre1 delta c1 hstrat1 hpre1
+        obtain ⟨r, pre', c', e, h1, h2, h3, h4, h5⟩ := ih1 pre1 delta c1 hstrat1 hpre1
           (hI.bs _ hinv1 hfit hin) hn (MatchR.empty _ _ _ _)
-        exact ⟨r, pre', c', e, h1, fun hp => h2 (hnone1 hp).1, h3⟩
+        refine ⟨r, pre', c', e, h1, fun hp => h2 (hnone1 hp).1, h3, h4, fun hp _ => ?_⟩
+        obtain ⟨hd, hs, hc⟩ := hd0 hp
+        subst hd
+        have := h5 (hnone1 hp).1 (by omega)
+        omega
       | true =>
         simp only [Bool.not_true, Bool.false_eq_true, if_false]
-        obtain ⟨i, c2, e2, hi1, hi2, hi3, hi4, _, _⟩ :=
+        obtain ⟨i, c2, e2, hi1, hi2, hi3, hi4, hstep2, _⟩ :=
           fwdCmp_spec "find_small_imp" needle haystack (pos + delta) i0 c1 hfit
         rw [bind_ok e2]
         have hi0n : i0 ≤ needle.len := by rw [hi0']; omega
@@ -161,56 +196,84 @@ theorem smallLoop_spec (tw : TwoWay) (needle haystack : Slice) (hn : 0 < needle.
           · exact hi3 t (by rw [hi0']; omega) ht2
         by_cases hilt : i < needle.len
         · simp only [hilt, if_true, csub_of_le _ hci, pure_bind']
-          obtain ⟨r, pre', c', e, h1, h2, h3⟩ := ih2 pre1 delta i (i - tw.criticalPos) c2 hstrat1
-            hpre1 (hI.right _ i hinv1 hfit hci hilt hright (hi4 hilt)) hn (MatchR.empty _ _ _ _)
-          exact ⟨r, pre', c', e, h1, fun hp => h2 (hnone1 hp).1, h3⟩
+          obtain ⟨r, pre', c', e, h1, h2, h3, h4, h5⟩ := ih2 pre1 delta i (i - tw.criticalPos) c2
+            hstrat1 hpre1 (hI.right _ i hinv1 hfit hci hilt hright (hi4 hilt)) hn
+            (MatchR.empty _ _ _ _)
+          refine ⟨r, pre', c', e, h1, fun hp => h2 (hnone1 hp).1, h3, h4, fun hp _ => ?_⟩
+          obtain ⟨hd, hs, hc⟩ := hd0 hp
+          subst hd hs
+          have := h5 (hnone1 hp).1 (by omega)
+          rw [hi0'] at hstep2 hi1
+          omega
         · have hieq : i = needle.len := by have := hi2 hi0n; omega
           subst hieq
           simp only [hilt, if_false]
-          obtain ⟨j, c3, e3, hj1, hj2, hj3, hj4, _, _⟩ :=
+          obtain ⟨j, c3, e3, hj1, hj2, hj3, hj4, hstep3, _⟩ :=
             smallBackCmp_spec needle haystack (pos + delta) shift1 tw.criticalPos c2 hfit hcrit
           rw [bind_ok e3]
           have hp0 : ¬ p = 0 := by omega
+          -- cost of this iteration up to here: `1 + (len - i0) + (crit - j) <= len + 1`
+          have hcost : pre = none → c3.steps + max tw.criticalPos shift ≤
+              c.steps + 1 + needle.len + tw.criticalPos := fun hp => by
+            obtain ⟨hd, hs, hc⟩ := hd0 hp
+            subst hs
+            rw [hi0'] at hstep2
+            omega
           -- the continuation after a left mismatch at `m`
           have hmiss : ∀ m, m < needle.len → needle.getD m ≠ haystack.getD (pos + delta + m) →
-              ∀ c4, ∃ r pre' c',
+              ∃ r pre' c',
                 (csub "find_small_imp: needle.len() - period" needle.len p >>= fun shift' =>
                   if hp : p = 0 then fail (Fault.panic "find_small_imp: no progress (period = 0)")
                   else Finder.smallLoop tw needle haystack hn p (needle.len - 1) pre1
-                    (pos + delta + p) shift') c4 = .ok (r, pre') c' ∧ PreOK strat pre' ∧
+                    (pos + delta + p) shift') c3 = .ok (r, pre') c' ∧ PreOK strat pre' ∧
                 (pre = none → pre' = none) ∧
-                (∀ q, r = some q → Inv q ∧ Occ haystack needle q) ∧ (r = none → Done) := by
-            intro m hm1 hm2 c4
+                (∀ q, r = some q → Inv q ∧ Occ haystack needle q) ∧ (r = none → Done) ∧
+                (pre = none → pos ≤ haystack.len →
+                  c'.steps + (pos + max tw.criticalPos shift) + 2 * pos ≤
+                    c.steps + 3 * haystack.len + 2 * needle.len + 1) := by
+            intro m hm1 hm2
             simp only [csub_of_le _ hpn, pure_bind', hp0, dite_false]
-            obtain ⟨r, pre', c', e, h1, h2, h3⟩ := ih3 pre1 delta needle.len (needle.len - p) hp0 c4
-              hstrat1 hpre1 (hI.left _ m hinv1 hfit hright hm1 hm2) (by omega)
-              (memory_after_period hper hcp hright)
-            exact ⟨r, pre', c', e, h1, fun hp => h2 (hnone1 hp).1, h3⟩
+            obtain ⟨r, pre', c', e, h1, h2, h3, h4, h5⟩ := ih3 pre1 delta needle.len
+              (needle.len - p) hp0 c3 hstrat1 hpre1 (hI.left _ m hinv1 hfit hright hm1 hm2)
+              (by omega) (memory_after_period hper hcp hright)
+            refine ⟨r, pre', c', e, h1, fun hp => h2 (hnone1 hp).1, h3, h4, fun hp _ => ?_⟩
+            obtain ⟨hd, hs, hc⟩ := hd0 hp
+            subst hd
+            have := h5 (hnone1 hp).1 (by omega)
+            have := hcost hp
+            omega
           by_cases hjs : j ≤ shift1
           · simp only [hjs, if_true, get_ok needle _ hshift1,
               get_ok haystack _ (show pos + delta + shift1 < haystack.len by omega), pure_bind']
             by_cases heq : needle.getD shift1 = haystack.getD (pos + delta + shift1)
             · simp only [heq, beq_self_eq_true, if_true]
-              refine ⟨some (pos + delta), pre1, c3, rfl, hpre1, fun hp => (hnone1 hp).1, ?_, nofun⟩
-              intro q hq
-              cases hq
-              refine ⟨hinv1, MatchR.occ ?_ hfit⟩
-              intro t _ ht
-              by_cases ht1 : t < shift1
-              · exact hmem1 t (Nat.zero_le _) ht1
-              · by_cases ht2 : t = shift1
-                · subst ht2; exact heq
-                · by_cases ht3 : t ≤ tw.criticalPos
-                  · exact hj2 t (by omega) (by omega)
-                  · exact hright t (by omega) ht
+              refine ⟨some (pos + delta), pre1, c3, rfl, hpre1, fun hp => (hnone1 hp).1, ?_, nofun,
+                fun hp _ => ?_⟩
+              · intro q hq
+                cases hq
+                refine ⟨hinv1, MatchR.occ ?_ hfit⟩
+                intro t _ ht
+                by_cases ht1 : t < shift1
+                · exact hmem1 t (Nat.zero_le _) ht1
+                · by_cases ht2 : t = shift1
+                  · subst ht2; exact heq
+                  · by_cases ht3 : t ≤ tw.criticalPos
+                    · exact hj2 t (by omega) (by omega)
+                    · exact hright t (by omega) ht
+              · obtain ⟨hd, hs, hc⟩ := hd0 hp
+                subst hd
+                have := hcost hp
+                omega
             · have : (needle.getD shift1 == haystack.getD (pos + delta + shift1)) = false := by
                 simpa using heq
               simp only [this, Bool.false_eq_true, if_false]
-              exact hmiss shift1 hshift1 heq c3
+              exact hmiss shift1 hshift1 heq
           · simp only [hjs, if_false, pure_bind', Bool.false_eq_true]
             rcases hj3 with hj3 | hj3
             · exact absurd hj3 hjs
-            · exact hmiss j (by omega) hj3 c3
+            · exact hmiss j (by omega) hj3
   | case2 pre pos shift h =>
-    exact ⟨none, pre, c, rfl, hpre, fun hp => hp, nofun, fun _ => hI.done pos hinv (by omega)⟩
+    exact ⟨none, pre, c, rfl, hpre, fun hp => hp, nofun, fun _ => hI.done pos hinv (by omega),
+      fun _ _ => by omega⟩
+
 end Memchr.TwoWay
